@@ -54,6 +54,19 @@ func init() {
 				}
 				return tokenThenComment.Match(in) || commaBeforeColon.Match(in) || numberThenBracket.Match(in)
 			},
+			// a top-level number or bare token directly followed by a comment that runs to the end of the
+			// input: sen.Parser moves to the comment modes without completing the document and returns nil
+			"senTopLevelValueThenComment": func(v *mon.Violation) bool {
+				if !strings.HasPrefix(v.Entry, "sen.") || v.Kind != "value-differs" {
+					return false
+				}
+				m, _ := v.Case.(map[string]any)
+				if m == nil {
+					return false
+				}
+				in, _ := m["input"].(mon.B)
+				return topValueThenComment.Match(in) && strings.Contains(v.Expected+" "+v.Observed, "null")
+			},
 			"senTokenizerOnlyOneLeadingComment": func(v *mon.Violation) bool {
 				if !strings.HasPrefix(v.Entry, "sen.Tokenizer") || v.Kind != "error-differs" {
 					return false
@@ -102,6 +115,7 @@ var maxIntDiff = regexp.MustCompile(`: (json\.Number\("92233720368547758(0[0-7])
 
 // malformed-SEN shapes whose handling depends on where a buffer ends (open finding F-C03-senmalformed)
 var tokenThenComment = regexp.MustCompile("[^\\s\\[\\]{}:,\"'/]/[/*]")
+var topValueThenComment = regexp.MustCompile("^\\s*[^\\s\\[\\]{}:,\"'/()]+/(/[^\n]*\n?\\s*|\\*[^*]*\\*/\\s*)$")
 var commaBeforeColon = regexp.MustCompile("[\"'\\w]\\s*,\\s*:")
 var numberThenBracket = regexp.MustCompile("(^|[\\s\\[{:,])-?[0-9][0-9.eE+-]*[\\[{]")
 
@@ -777,6 +791,37 @@ func run(c *mon.Ctx) {
 		input([]byte(`"`+e+`"`), "escape", nil, false)
 		input([]byte(`{"`+e+`":["`+e+`","`+e+e+`"]}`), "escape", nil, false)
 	}
+	// strings built from escape pieces that carry state from one \u escape to the next (lone and paired
+	// surrogates, plain characters before them so that the decoded offsets line up, other escapes), two
+	// strings per document: what one string leaves pending must not reach the next
+	pieces := []string{`\ud83d`, `\ude00`, `a`, `abc`, `\n`, "\u00e9", `\u0041`}
+	var s12, s123 []string
+	for _, a := range pieces {
+		s12 = append(s12, a)
+		s123 = append(s123, a)
+		for _, b := range pieces {
+			s12 = append(s12, a+b)
+			s123 = append(s123, a+b)
+			for _, d := range pieces {
+				s123 = append(s123, a+b+d)
+			}
+		}
+	}
+	pi := 0
+	for _, a := range s12 {
+		for _, b := range s123 {
+			pi++
+			if !c.Mine(pi) || (!c.Thorough() && pi%5 != 0) {
+				continue
+			}
+			r.cnt["family:escape-pieces"]++
+			if pi%2 == 0 {
+				input([]byte(`["`+a+`","`+b+`"]`), "escape-pieces", nil, false)
+			} else {
+				input([]byte(`{"`+a+`":"`+b+`"}`), "escape-pieces", nil, false)
+			}
+		}
+	}
 	// long documents with a token across the refill boundaries
 	toks := []string{`"aé\n\"b😀"`, `-12.5e+3`, `123456789012345678901`, `true`, `false`, `null`, `{"k":[1,2]}`, `"` + strings.Repeat("x", 70) + `"`, `tru]`, `1.`, `"a`}
 	li := 0
@@ -816,6 +861,12 @@ func run(c *mon.Ctx) {
 		input(t, "sen", featList(sg.F), false)
 		if i%2 == 0 {
 			input(jsongen.Mutate(rnd, t, prev), "senmutant", featList(sg.F), true)
+		}
+	}
+	// top-level scalars directly followed by a comment (F-C03-sentopcomment), and the same inside containers
+	for i, t := range []string{"37//", "1.5// c\n", "37/*c*/", "-1//", "[37// c\n]", "{a:37// c\n}", "[37/*c*/ 2]"} {
+		if c.Mine(i) {
+			input([]byte(t), "sen-fixed", []string{"linecomment"}, false)
 		}
 	}
 	// multi-document streams
